@@ -73,7 +73,32 @@ def as_input(x, kind):
         return pd.Series(np.array(x, dtype=float))
     if kind == "series-idx":
         return pd.Series(np.array(x, dtype=float), index=[f"r{i}" for i in range(len(x))][::-1])
+    if kind in DTYPE_INPUTS:
+        return DTYPE_INPUTS[kind][0](x)
     raise ValueError(kind)
+
+
+# input containers of other element types: name -> (constructor, its source for witnesses, value range, class group)
+def _ints(v):
+    return [int(t) for t in v]
+
+
+DTYPE_INPUTS = {
+    "dtype:int8": (lambda v: np.array(_ints(v), dtype="int8"), "(lambda v: np.array([int(t) for t in v], dtype='int8'))", (-128, 127), "int"),
+    "dtype:int16": (lambda v: np.array(_ints(v), dtype="int16"), "(lambda v: np.array([int(t) for t in v], dtype='int16'))", (-3000, 3000), "int"),
+    "dtype:int32": (lambda v: np.array(_ints(v), dtype="int32"), "(lambda v: np.array([int(t) for t in v], dtype='int32'))", (-10**6, 10**6), "int"),
+    "dtype:int64": (lambda v: np.array(_ints(v), dtype="int64"), "(lambda v: np.array([int(t) for t in v], dtype='int64'))", (-10**6, 10**6), "int"),
+    "dtype:uint8": (lambda v: np.array(_ints(v), dtype="uint8"), "(lambda v: np.array([int(t) for t in v], dtype='uint8'))", (0, 255), "int"),
+    "dtype:uint16": (lambda v: np.array(_ints(v), dtype="uint16"), "(lambda v: np.array([int(t) for t in v], dtype='uint16'))", (0, 60000), "int"),
+    "dtype:uint32": (lambda v: np.array(_ints(v), dtype="uint32"), "(lambda v: np.array([int(t) for t in v], dtype='uint32'))", (0, 10**6), "int"),
+    "dtype:uint64": (lambda v: np.array(_ints(v), dtype="uint64"), "(lambda v: np.array([int(t) for t in v], dtype='uint64'))", (0, 10**6), "int"),
+    "dtype:bool": (lambda v: np.array(_ints(v), dtype=bool), "(lambda v: np.array([int(t) for t in v], dtype=bool))", (0, 1), "bool"),
+    "dtype:python-int-list": (lambda v: _ints(v), "(lambda v: [int(t) for t in v])", (-50, 50), "int"),
+    "dtype:series-int64": (lambda v: pd.Series(_ints(v), dtype="int64"), "(lambda v: pd.Series([int(t) for t in v], dtype='int64'))", (-1000, 1000), "int"),
+    "dtype:nullable-Int64": (lambda v: pd.Series(pd.array(_ints(v), dtype="Int64")), "(lambda v: pd.Series(pd.array([int(t) for t in v], dtype='Int64')))", (-1000, 1000), "int"),
+    "dtype:nullable-Float64": (lambda v: pd.Series(pd.array([float(t) for t in v], dtype="Float64")), "(lambda v: pd.Series(pd.array([float(t) for t in v], dtype='Float64')))", None, "nullable-float"),
+    "dtype:float32": (lambda v: np.array(v, dtype="float32"), "(lambda v: np.array(v, dtype='float32'))", None, "float32"),
+}
 
 
 def stats(x, ddof):
@@ -100,7 +125,10 @@ m = math.fsum(x) / n
 sd = math.sqrt(math.fsum((v - m) ** 2 for v in x) / (n - ddof))
 kappa = max(abs(v) for v in x) / sd + 1
 state = {{}}
-r = np.asarray(fn({ctor}(x), _state=state, **kwargs), dtype=float)
+raw = np.asarray(fn({ctor}(x), _state=state, **kwargs))
+if raw.dtype.kind == "f" and raw.dtype.itemsize < 8:
+    eps = float(np.finfo(raw.dtype).eps)      # a float32 input is processed (and judged) in float32
+r = raw.astype(float)
 tol = 16 * n * eps * kappa
 clause = {clause!r}
 if clause == "C13.scale.train-zero-mean":
@@ -110,6 +138,15 @@ elif clause == "C13.scale.train-unit-std":
     mr = math.fsum(r) / n
     s = math.sqrt(math.fsum((v - mr) ** 2 for v in r) / (n - ddof))
     assert abs(s - 1) <= tol, ("std(ddof) of the fitted output", s)
+elif clause == "C13.scale.train-values" and scaled and not centered:
+    # without centring the divisor may be read as the standard deviation (docs) or the root mean square (R); any other
+    # value, or a non-finite output, is wrong under both readings
+    assert np.isfinite(r).all(), list(r)
+    rms = math.sqrt(math.fsum(v * v for v in x) / (n - ddof))
+    i0 = max(range(n), key=lambda i: abs(x[i]))
+    k = x[i0] / r[i0]
+    assert abs(k - rms) <= tol * rms or abs(k - sd) <= tol * sd, ("divisor", k, "rms", rms, "sd", sd)
+    assert all(abs(a - v / k) <= 64 * eps * abs(v / k) for a, v in zip(r, x)), "output is not x / constant"
 elif clause == "C13.scale.train-values":
     exp = [((v - m) if centered else v) / (sd if (scaled and centered) else 1.0) for v in x]
     assert all(abs(a - b) <= tol * (1 + abs(b)) * (1 if scaled else max(abs(v) for v in x)) for a, b in zip(r, exp)), (list(r), exp)
@@ -158,6 +195,37 @@ def _scale_cases(rng, n_random, exhaustive_n):
             ddof = 1 if n > 1 else 0
         cases.append(dict(x=x.tolist(), y=y.tolist(), fn=fn, centered=centered, scaled=scaled, ddof=ddof,
                           kind=rng.choice(kinds), tag=meta["family"]))
+    # the element type of the input as a dimension: every integer / boolean / float32 / nullable container, with
+    # integer data whose mean is not an integer
+    dkinds = list(DTYPE_INPUTS)
+    for i in range(max(len(dkinds) * 3, n_random // 4)):
+        kind = dkinds[i % len(dkinds)]
+        rng_ = DTYPE_INPUTS[kind][2]
+        n = rng.choice([2, 3, 5, 5, 8, 13, 30])
+        if rng_ is None:  # float containers: values exactly representable in float32
+            x = [float(np.float32(v)) for v in gen_vector(rng, n, mag=10 ** rng.uniform(-3, 3))[0]]
+            y = [float(np.float32(v)) for v in gen_vector(rng, rng.randint(1, 6), mag=max(abs(v) for v in x) or 1.0)[0]]
+        else:
+            lo, hi = rng_
+            x = [rng.randint(lo, hi) for _ in range(n)]
+            if kind == "dtype:bool":
+                x[:2] = [0, 1]
+            if sum(x) % n == 0:  # force a fractional mean
+                j = max(range(n), key=lambda t: -x[t])
+                x[j] = x[j] + 1 if x[j] < hi else x[j] - 1
+            y = [rng.randint(lo, hi) for _ in range(rng.randint(1, 6))]
+            x, y = [float(v) for v in x], [float(v) for v in y]
+        if len(set(x)) < 2:
+            continue
+        fn = rng.choice(["scale", "scale", "center", "standardize"])
+        if fn == "center":
+            centered, scaled, ddof = True, False, 1
+        elif fn == "standardize":
+            centered, scaled, ddof = True, True, 0
+        else:
+            centered, scaled = rng.choice([(True, True), (True, True), (True, False), (False, True)])
+            ddof = rng.choice([0, 1, 1]) if n > 2 else rng.choice([0, 1])
+        cases.append(dict(x=x, y=y, fn=fn, centered=centered, scaled=scaled, ddof=ddof, kind=kind, tag=kind))
     return cases
 
 
@@ -171,7 +239,8 @@ def _scale_kwargs(c):
 
 def _scale_witness(c, clause):
     ctor = {"ndarray": "np.array", "list": "list", "series": "pd.Series",
-            "series-idx": "(lambda v: pd.Series(v, index=['r%d' % i for i in range(len(v))][::-1]))"}[c["kind"]]
+            "series-idx": "(lambda v: pd.Series(v, index=['r%d' % i for i in range(len(v))][::-1]))",
+            **{k: v[1] for k, v in DTYPE_INPUTS.items()}}[c["kind"]]
     return code(SCALE_CODE.format(x=fl(c["x"]), y=fl(c["y"]), fn=c["fn"], kwargs=repr(_scale_kwargs(c)),
                                   ddof=repr(c["ddof"]), centered=c["centered"], scaled=c["scaled"], ctor=ctor,
                                   clause=clause))
@@ -200,10 +269,16 @@ def _scale_worker(cases):
         state = {}
         wit = lambda clause: {"fn": c["fn"], "kwargs": kwargs, "x": x, "y": y, "input": c["kind"],
                               "code": _scale_witness(c, clause)}
-        cls_base = f"{c['fn']}:center={centered}:scale={scaled}"
+        cls_base = f"{c['fn']}:center={centered}:scale={scaled}" + (
+            f":{DTYPE_INPUTS[c['kind']][3]}-input" if c["kind"] in DTYPE_INPUTS else "")
+        rt = 1e-12
         try:
             with quiet_numpy():
-                r = np.asarray(fn(as_input(x, c["kind"]), _state=state, **kwargs), dtype=float)
+                raw = np.asarray(fn(as_input(x, c["kind"]), _state=state, **kwargs))
+                if raw.dtype.kind == "f" and raw.dtype.itemsize < 8:  # float32 in, float32 out: judged at that precision
+                    tol *= float(np.finfo(raw.dtype).eps) / EPS
+                    rt = 64 * float(np.finfo(raw.dtype).eps)
+                r = raw.astype(float)
         except Exception as e:  # the code under test may not raise on a finite non-constant vector
             res.fail("C13.scale.train-values", cls_base + ":raises-" + type(e).__name__, wit("C13.scale.train-values"),
                      f"{type(e).__name__}: {e}")
@@ -232,6 +307,25 @@ def _scale_worker(cases):
             if bad:
                 res.fail("C13.scale.train-values", cls_base, wit("C13.scale.train-values"),
                          f"rows {bad[:5]}: got {[float(r[i]) for i in bad[:5]]} expected {[exp[i] for i in bad[:5]]}")
+        else:
+            # scale without centring: the divisor is the standard deviation (docs) or the root mean square (R);
+            # anything else, or non-finite output for finite input, is wrong under both readings
+            rms = math.sqrt(math.fsum(v * v for v in x) / (n - ddof))
+            i0 = int(np.argmax(np.abs(x)))
+            eps_rel = tol / kappa
+            if not np.isfinite(r).all():
+                res.fail("C13.scale.train-values", cls_base + ":non-finite-output", wit("C13.scale.train-values"),
+                         f"finite input {x[:5]} gives {r.tolist()[:5]}")
+                continue
+            k = x[i0] / r[i0] if r[i0] != 0 else float("nan")
+            if not (abs(k - rms) <= eps_rel * kappa * rms or abs(k - sd) <= eps_rel * kappa * sd):
+                res.fail("C13.scale.train-values", cls_base + ":divisor-neither-rms-nor-std", wit("C13.scale.train-values"),
+                         f"x / result = {k!r}; root mean square {rms!r}, standard deviation {sd!r} (ddof={ddof})")
+                continue
+            if not all(abs(a - v / k) <= max(rt, 64 * EPS) * abs(v / k) for a, v in zip(r, x)):
+                res.fail("C13.scale.train-values", cls_base + ":not-proportional", wit("C13.scale.train-values"),
+                         "output is not x divided by one constant")
+                continue
         # --- replay contract: recorded statistics applied unchanged, state not modified
         snapshot = copy.deepcopy(state)
         try:
@@ -253,11 +347,11 @@ def _scale_worker(cases):
             i0 = int(np.argmax(np.abs(x)))
             k = x[i0] / r[i0]
             exp2 = [v / k for v in y]
-            bad = [i for i, (a, b) in enumerate(zip(r2, exp2)) if not abs(a - b) <= 1e-12 * abs(b)]
+            bad = [i for i, (a, b) in enumerate(zip(r2, exp2)) if not abs(a - b) <= rt * abs(b)]
         if bad:
             res.fail("C13.scale.replay-recorded-stats", cls_base, wit("C13.scale.replay-recorded-stats"),
                      f"rows {bad[:5]}: got {[float(r2[i]) for i in bad[:5]]} expected {[exp2[i] for i in bad[:5]]}")
-        if not np.allclose(r1, r, rtol=1e-12, atol=0, equal_nan=True):
+        if not np.allclose(r1, r, rtol=rt, atol=0, equal_nan=True):
             res.fail("C13.scale.replay-recorded-stats", cls_base + ":training-rows-differ",
                      wit("C13.scale.replay-recorded-stats"), "replay on the training vector differs from the fit output")
         if repr(sorted(snapshot.items(), key=lambda kv: kv[0])) != repr(sorted(state.items(), key=lambda kv: kv[0])):
@@ -997,8 +1091,8 @@ def run_bounded(ctx):
         "A-small-dtypes(C13): for int8/uint8/bool/int16/float32 inputs numpy's own log/exp return float16/float32; results "
         "are judged at the precision of the floating type returned and exponents are kept inside its range",
         "A-scale-uncentred(C13): for scale(center=False, scale=True) the statement does not fix the divisor "
-        "(the docs say 'standard deviation', R says root-mean-square); only proportionality and replay with the "
-        "same divisor are checked",
+        "(the docs say 'standard deviation', R says root-mean-square); either is accepted, any other divisor or a "
+        "non-finite output is a violation; replay must use the same divisor",
     )
 
     # ---- scale / center / standardize: direct calls
@@ -1009,7 +1103,9 @@ def run_bounded(ctx):
              "non-trivial (non-constant vector, n > ddof)",
         exhaustive=False,
         bound=("exhaustive: all non-constant vectors over {-2,-1,0,1,2}^n, n<=%d x center x scale x ddof{0,1}; "
-               "random: %d vectors, n 2..50, |x| 1e-6..1e6, 6 families, ddof {0,0.5,1,2}, 4 containers")
+               "random: %d vectors, n 2..50, |x| 1e-6..1e6, 6 families, ddof {0,0.5,1,2}, 4 containers; plus 1/4 as many integer-valued "
+               "vectors with fractional mean in 14 element types (int8..int64, uint8..uint64, bool, Python ints, Series "
+               "int64, nullable Int64/Float64, float32)")
         % (5 if thorough else 4, 20000 if thorough else 1200),
     ) as b:
         rep = Reporter(ctx, b)
